@@ -15,16 +15,17 @@ func TestMakeExemplars(t *testing.T) {
 	}
 	big := 100000000000
 	cases := map[string]Case{
-		"first-on-1e11":                   {N: big, FailGap: 0, Consumer: St{Name: "first"}},
-		"top-size-with-read-ahead":        {N: big, FailGap: 0, Stages: []St{{Name: "accept", A: 3, B: 1}, {Name: "skip", A: 5}}, Consumer: St{Name: "topSize", A: 12}},
-		"present-at-k":                    {N: big, FailGap: 1, Stages: []St{{Name: "combine"}, {Name: "map", A: 2}}, Consumer: St{Name: "present", A: 40}},
-		"multiUse-short-circuit":          {N: big, FailGap: 2, Stages: []St{{Name: "number"}}, Consumer: St{Name: "multiUse", A: 3}},
-		"membership":                      {N: big, FailGap: 0, Stages: []St{{Name: "plus"}}, Consumer: St{Name: "contains", A: 16}},
-		"F29-multiUse-behind-failed-item": {N: big, FailGap: 0, FailNear: true, Stages: []St{{Name: "top", A: 2000000000}, {Name: "combine"}}, Consumer: St{Name: "multiUse", A: 12}},
-		"sublist-membership-near-failure": {N: big, FailGap: 0, FailNear: true, Stages: []St{{Name: "map", A: 1}}, Consumer: St{Name: "containsAll", A: 4}},
-		"top-read-ahead-item-fails":       {N: big, FailGap: 0, FailNear: true, Stages: []St{{Name: "iir"}}, Consumer: St{Name: "topSum", A: 7}},
-		"unconsumed-let":                  {N: big, FailGap: -1, Stages: []St{{Name: "accept", A: 2, B: 0}, {Name: "top", A: 5}}, Consumer: St{Name: "first"}, Unused: "let"},
-		"unconsumed-returned":             {N: 1000, FailGap: -1, Stages: []St{{Name: "map", A: 1}, {Name: "skip", A: 3}}, Consumer: St{Name: "first"}, Unused: "return"},
+		"first-on-1e11":                                 {N: big, FailGap: 0, Consumer: St{Name: "first"}},
+		"top-size-with-read-ahead":                      {N: big, FailGap: 0, Stages: []St{{Name: "accept", A: 3, B: 1}, {Name: "skip", A: 5}}, Consumer: St{Name: "topSize", A: 12}},
+		"present-at-k":                                  {N: big, FailGap: 1, Stages: []St{{Name: "combine"}, {Name: "map", A: 2}}, Consumer: St{Name: "present", A: 40}},
+		"multiUse-short-circuit":                        {N: big, FailGap: 2, Stages: []St{{Name: "number"}}, Consumer: St{Name: "multiUse", A: 3}},
+		"membership":                                    {N: big, FailGap: 0, Stages: []St{{Name: "plus"}}, Consumer: St{Name: "contains", A: 16}},
+		"F29-multiUse-behind-failed-item":               {N: big, FailGap: 0, FailNear: true, Stages: []St{{Name: "top", A: 2000000000}, {Name: "combine"}}, Consumer: St{Name: "multiUse", A: 12}},
+		"sublist-membership-near-failure":               {N: big, FailGap: 0, FailNear: true, Stages: []St{{Name: "map", A: 1}}, Consumer: St{Name: "containsAll", A: 4}},
+		"top-read-ahead-item-fails":                     {N: big, FailGap: 0, FailNear: true, Stages: []St{{Name: "iir"}}, Consumer: St{Name: "topSum", A: 7}},
+		"single-on-many-items-is-decided-by-the-second": {N: big, FailGap: -1, Stages: []St{{Name: "accept", A: 2, B: 0}}, Consumer: St{Name: "singleMany"}},
+		"unconsumed-let":                                {N: big, FailGap: -1, Stages: []St{{Name: "accept", A: 2, B: 0}, {Name: "top", A: 5}}, Consumer: St{Name: "first"}, Unused: "let"},
+		"unconsumed-returned":                           {N: 1000, FailGap: -1, Stages: []St{{Name: "map", A: 1}, {Name: "skip", A: 3}}, Consumer: St{Name: "first"}, Unused: "return"},
 	}
 	for name, c := range cases {
 		os.Setenv("VERIF_FAILFILE", filepath.Join(dir, name+".json"))
